@@ -1,5 +1,5 @@
 """C09 - fit heuristics keep the any-fit invariant and their bin-count bounds."""
-from .. import core, scope, gen
+from .. import core, scope, gen, models
 from .common import *
 
 
@@ -15,6 +15,7 @@ def ffd_family(m):
 
 def run(ck):
     q = ck.quick()
+    models.heur_mc(ck, ["ff", "bf", "ffd", "bfd"], ["FitStepInv"], maxn=4 if q else 5, cs=(4, 5, 6))
     Q = scope.q_scope(ck, 5, 4, [4]) + scope.q_scope(ck, 5 if not q else 4, 6, [6]) + scope.q_scope(ck, 4 if q else 5, 12, [12], minv=1)
     Q = [g for g in Q if max(g["vals"]) <= g["C"]]
     ck.exhaustive = True
